@@ -995,6 +995,52 @@ fn call_order(src: &Src, fname: &str, gname: &str, known: &[(&str, u64)], what: 
 }
 
 
+/// the block-job closure of parblock::queue_file_range: request size and offset of each kernel copy, the guard
+/// under which a zero-byte answer is the regular end, and the completion test
+fn block_job_exprs(src: &Src) -> R<String> {
+    let (_, block) = find_fn(src, "queue_file_range")?;
+    struct V { call: Option<syn::ExprCall>, guard: Option<Expr>, complete: Option<Expr> }
+    impl<'ast> Visit<'ast> for V {
+        fn visit_expr_call(&mut self, c: &'ast syn::ExprCall) {
+            let n = quote::ToTokens::to_token_stream(&c.func).to_string().replace(' ', "");
+            if n == "copy_file_offset" && self.call.is_none() { self.call = Some(c.clone()); }
+            syn::visit::visit_expr_call(self, c)
+        }
+        fn visit_arm(&mut self, a: &'ast syn::Arm) {
+            let p = quote::ToTokens::to_token_stream(&a.pat).to_string().replace(' ', "");
+            if p == "Ok(0)" && self.guard.is_none() {
+                if let Some((_, g)) = &a.guard { self.guard = Some((**g).clone()); }
+            }
+            syn::visit::visit_arm(self, a)
+        }
+        fn visit_expr_if(&mut self, i: &'ast syn::ExprIf) {
+            let t = quote::ToTokens::to_token_stream(&i.cond).to_string().replace(' ', "");
+            if (t.contains("done") && t.contains("bytes")) && !t.contains("let") && self.complete.is_none() { self.complete = Some((*i.cond).clone()); }
+            syn::visit::visit_expr_if(self, i)
+        }
+    }
+    let mut v = V { call: None, guard: None, complete: None };
+    v.visit_block(block);
+    let call = v.call.ok_or("queue_file_range: no copy_file_offset call")?;
+    if call.args.len() != 4 { return Err("copy_file_offset: expected 4 arguments".into()); }
+    let chk = |tr: &Tr, allowed: &[&str], what: &str| -> R<()> {
+        for f in &tr.free { if !allowed.contains(&f.as_str()) { return Err(format!("{}: unexpected variable {}", what, f)); } }
+        Ok(())
+    };
+    let mut t1 = Tr::new(); let req = t1.expr(&call.args[2])?; chk(&t1, &["bytes", "done"], "request")?;
+    let mut t2 = Tr::new(); let off = t2.expr(&call.args[3])?; chk(&t2, &["off", "done"], "offset")?;
+    let g = v.guard.ok_or("queue_file_range: no guarded `Ok(0)` arm")?;
+    let mut t3 = Tr::new(); let guard = t3.expr(&g)?; chk(&t3, &["off", "done", "harc_metadata_len"], "eof guard")?;
+    let c = v.complete.ok_or("queue_file_range: completion test not found")?;
+    let mut t4 = Tr::new(); let comp = t4.expr(&c)?; chk(&t4, &["done", "bytes"], "completion test")?;
+    Ok(format!("(* {}:{}  the block job of parblock::queue_file_range *)\n\
+Definition x_block_job_request (bytes done : N) : N :=\n  {}.\n\
+Definition x_block_job_offset (off done : N) : N :=\n  {}.\n\
+Definition x_block_job_zero_is_end (harc_metadata_len off done : N) : bool :=\n  {}.\n\
+Definition x_block_job_complete (done bytes : N) : bool :=\n  {}.\n", src.path, call.span().start().line, req, off, guard, comp))
+}
+
+
 fn main() {
     let root = std::env::args().nth(1).unwrap_or_else(|| "/repo".to_string());
     let root = Path::new(&root);
@@ -1018,6 +1064,7 @@ fn main() {
             emit("queue_file_range.blocks", let_function(&src, "queue_file_range", "blocks", "x_qfr_blocks", &p3, "N", &[]), &mut out);
             emit("queue_file_range.bytes", let_function(&src, "queue_file_range", "bytes", "x_qfr_bytes", &p4, "N", &[]), &mut out);
             emit("queue_file_range.off", let_function(&src, "queue_file_range", "off", "x_qfr_off", &p4, "N", &[]), &mut out);
+            emit("queue_file_range.block_job", block_job_exprs(&src), &mut out);
             emit("queue_file_blocks", call_order(&src, "queue_file_blocks", "x_queue_file_blocks_steps",
                 &[("CopyHandle::new", 40), ("try_reflink", 4), ("Arc::new", 41), ("probably_sparse", 30), ("map_extents", 42), ("merge_extents", 43),
                   ("queue_file_range", 44), ("queue_whole_file", 45)],
